@@ -4,6 +4,7 @@ import pandas as pd
 from hypothesis import strategies as st
 
 import pygaps
+from pygaps.utilities.exceptions import pgError
 from pygaps.utilities.math_utilities import split_ads_data
 from pygaps.utilities.pygaps_utilities import get_iso_loading_and_pressure_ordered
 
@@ -217,6 +218,39 @@ def check_units(desc, ctx):
                 raise Violation(f"{which}(limits={lim}, {kwargs}) = {got_lim.tolist()} != native slice of the permanently "
                                 f"converted clone {cl_lim.tolist()}", tag="limits_vs_clone")
         ctx.label("limits_checked_" + which)
+
+    # ---- a request that names only HALF of a representation (the mode without a unit, a unit without the mode or basis):
+    # whatever the permanent conversion with the same half request makes of it, the accessor reads the same numbers
+    partial = []
+    if prep is not None:
+        partial += [("pressure", {"pressure_mode": prep[0]}, {"mode_to": prep[0]}),
+                    ("pressure", {"pressure_unit": prep[1]}, {"unit_to": prep[1]})] if prep[1] else \
+                   [("pressure", {"pressure_mode": prep[0]}, {"mode_to": prep[0]})]
+    if lrep is not None and lrep[1] and not _frac(sl):
+        partial.append(("loading", {"loading_unit": lrep[1]}, {"unit_to": lrep[1]}))
+    if mrep is not None and mrep[1] and not _frac(sl):
+        partial.append(("loading", {"material_unit": mrep[1]}, {"unit_to": mrep[1], "@material": True}))
+    for which, kwq, kwc in partial:
+        c2 = K.clone_point(iso)
+        kwc = dict(kwc)
+        mat = kwc.pop("@material", False)
+        try:
+            (c2.convert_pressure if which == "pressure" else c2.convert_material if mat else c2.convert_loading)(**kwc)
+        except pgError:
+            ctx.label("partial_request_conversion_refused")
+            continue
+        rows2 = c2.data_raw if branch in (None, "all") else c2.data_raw[c2.data_raw["branch"] == (0 if branch == "ads" else 1)]
+        want = rows2[c2.pressure_key if which == "pressure" else c2.loading_key].to_numpy(dtype=float)
+        try:
+            got_h = np.asarray(getattr(iso, which)(**kwb, **kwq), dtype=float)
+        except pgError as e:
+            raise Violation(f"{which}({kwb}, {kwq}) of an isotherm stored in {sp}/{sl}/{sm} is refused ({e}) although the "
+                            f"permanent conversion with the same request succeeds", tag="partial_request")
+        if got_h.shape != want.shape or not allclose(got_h, want, rel=1e-11):
+            raise Violation(f"{which}({kwb}, {kwq}) of an isotherm stored in {sp}/{sl}/{sm}: {got_h.tolist()} != the copy "
+                            f"permanently converted with the same request {want.tolist()} (now {K.reps_of(c2.units)})",
+                            tag="partial_request")
+        ctx.label("partial_request_" + which)
 
     # the original is untouched by the reads
     if K.reps_of(iso.units) != (sp, sl, sm):
